@@ -273,4 +273,13 @@ def main():
 
 
 if __name__ == "__main__":
-    sys.exit(main())
+    try:
+        rc = main()
+    except SystemExit:
+        raise
+    except Exception as ex:  # an engine crash is "analysis broken", never a verdict
+        import traceback
+        traceback.print_exc()
+        print("ANALYSIS-BROKEN engine crashed: %r" % (ex,))
+        rc = 2
+    sys.exit(rc)
